@@ -1,1 +1,68 @@
-From BW Require Import SpecDrift.
+(* C02 - Diff mode validates exactly the touched blocks, with full-scan verdicts.
+   Property theorems only; proofs are in coq/proofs. *)
+From BW Require Import Select Run.
+From BWP Require Import TextFacts Select_proofs Diff_proofs C01_proofs.
+
+(* In diff-only mode a block is selected iff the diff touches its start tag or its content. *)
+Theorem C02_selected_iff_touched : forall lcs bs bc,
+  In bc (select_blocks false lcs bs) <->
+  exists b, In b bs /\ bc = mk_bctx lcs b /\ (content_modified b lcs = true \/ tag_modified b lcs = true).
+Proof. exact selected_iff_touched. Qed.
+Print Assumptions C02_selected_iff_touched.
+
+(* With path arguments matching the file every block is selected, in order. *)
+Theorem C02_scan_selects_all : forall lcs bs, map bc_block (select_blocks true lcs bs) = bs.
+Proof. exact scan_selects_all. Qed.
+Print Assumptions C02_scan_selects_all.
+
+(* Whole-line changes hit exactly the lines of the range. *)
+Theorem C02_content_whole_line : forall b lc, lc_ranges lc = None ->
+  content_hit b lc = (fst (b_cs b) <=? lc_line lc) && (lc_line lc <=? fst (b_ce b)).
+Proof. exact content_hit_whole_line. Qed.
+Print Assumptions C02_content_whole_line.
+Theorem C02_tag_whole_line : forall b lc, lc_ranges lc = None ->
+  tag_hit b lc = (fst (b_ts b) <=? lc_line lc) && (lc_line lc <=? fst (b_te b)).
+Proof. exact tag_hit_whole_line. Qed.
+Print Assumptions C02_tag_whole_line.
+
+(* Editing only the attributes inside a start tag selects the block but is not a content change. *)
+Theorem C02_tag_only_edit : forall b lc rs,
+  fst (b_ts b) = fst (b_te b) -> fst (b_cs b) = fst (b_ts b) -> snd (b_te b) < snd (b_cs b) ->
+  fst (b_ts b) < fst (b_ce b) ->
+  lc_line lc = fst (b_ts b) -> lc_ranges lc = Some rs ->
+  (forall r, In r rs -> snd (b_ts b) - 1 <= fst r /\ fst r < snd r /\ snd r <= snd (b_te b)) ->
+  rs <> [] ->
+  tag_hit b lc = true /\ content_hit b lc = false.
+Proof. exact tag_only_edit. Qed.
+Print Assumptions C02_tag_only_edit.
+
+(* Editing only the end-tag comment does neither. *)
+Theorem C02_end_tag_only_edit : forall b lc rs,
+  lc_line lc = fst (b_ce b) -> fst (b_cs b) < fst (b_ce b) -> fst (b_te b) < fst (b_ce b) ->
+  lc_ranges lc = Some rs -> (forall r, In r rs -> snd (b_ce b) - 1 <= fst r) ->
+  tag_hit b lc = false /\ content_hit b lc = false.
+Proof. exact end_tag_only_edit. Qed.
+Print Assumptions C02_end_tag_only_edit.
+
+(* Content that shares the start tag's line is content. *)
+Theorem C02_content_on_tag_line : forall b lc rs r,
+  fst (b_ts b) = fst (b_te b) -> fst (b_cs b) = fst (b_ts b) -> snd (b_te b) < snd (b_cs b) ->
+  fst (b_ts b) < fst (b_ce b) ->
+  lc_line lc = fst (b_ts b) -> lc_ranges lc = Some rs -> In r rs -> snd (b_cs b) - 1 < snd r ->
+  content_hit b lc = true.
+Proof. exact content_on_tag_line_edit. Qed.
+Print Assumptions C02_content_on_tag_line.
+
+(* Code outside the block: nothing far from the block selects or marks it. *)
+Theorem C02_outside : forall b lcs,
+  (forall lc, In lc lcs -> (lc_line lc < fst (b_ts b) /\ lc_line lc < fst (b_cs b)) \/
+                           (fst (b_te b) < lc_line lc /\ fst (b_ce b) < lc_line lc)) ->
+  tag_modified b lcs = false /\ content_modified b lcs = false.
+Proof. exact far_not_selected. Qed.
+Print Assumptions C02_outside.
+
+(* Changed ranges of a modified line come out sorted, so the per-line range test is order-independent. *)
+Theorem C02_ranges_sorted : forall new ops pd acc,
+  rsorted acc -> sorted_by_start (line_diff_ops new ops pd acc).
+Proof. exact line_diff_ops_sorted. Qed.
+Print Assumptions C02_ranges_sorted.
